@@ -794,8 +794,8 @@ Section Valid.
   Proof. apply (S_keyable _ DT_Int (RkBigInt z)). reflexivity. Qed.
   Lemma S_uid b : scalar_step (EUid b).
   Proof. apply (S_keyable _ DT_UID (RkBytes b)). reflexivity. Qed.
-  Lemma S_time t : scalar_step (ETime t).
-  Proof. apply (S_keyable _ DT_Time (RkTime t)). reflexivity. Qed.
+  Lemma S_time t : time_token_valid t = true -> scalar_step (ETime t).
+  Proof. intro Ht. apply (S_keyable _ DT_Time (RkTime t)). intro c. unfold rstep. rewrite Ht. reflexivity. Qed.
   Lemma S_float b : scalar_step (EFloat b).
   Proof.
     destruct (f64_is_nan b) eqn:Hn.
@@ -1158,8 +1158,9 @@ Section Valid.
       intros n ks stk o Hf Ho. apply S_key_string; [exact Hv | exact Hf | exact Ho].
     - intros p IH rk d H Hv. apply (IH rk d H Hv).
     - intros p IH rk d H Hv. apply (IH rk d H Hv).
-    - intros z t rk d H _. injection H as <-. exists (ETime t). split; [reflexivity|]. split; [reflexivity|].
-      intros n ks stk o Hf Ho. apply (S_key _ DT_Time (RkTime t)); [reflexivity | exact Hf | exact Ho].
+    - intros z t rk d H Hv. injection H as <-. exists (ETime t). split; [reflexivity|]. split; [reflexivity|].
+      cbn [vok] in Hv.
+      intros n ks stk o Hf Ho. apply (S_key _ DT_Time (RkTime t)); [intro c; unfold rstep; rewrite Hv; reflexivity | exact Hf | exact Ho].
     - intros z x rk d H _. injection H as <-. exists (EBigInt (Some x)). split; [reflexivity|]. split; [reflexivity|].
       intros n ks stk o Hf Ho. apply (S_key _ DT_Int (RkBigInt x)); [reflexivity | exact Hf | exact Ho].
     - intros b rk d H _. injection H as <-. exists (EUid b). split; [reflexivity|]. split; [reflexivity|].
@@ -1345,7 +1346,7 @@ Section Valid.
           split; [|exact Hx]. cbn [fst snd]. split; [reflexivity|].
           intros n ks stk o Hfr Ho. apply S_key_string; [exact Hn1 | exact Hfr | exact Ho].
         * subst ens. rewrite map_map. cbn [fst snd]. rewrite map_map in Hfresh. exact Hfresh.
-    - intros z t. split; [|exact I]. intros d _. split; [apply scalar_ev; [apply S_time | reflexivity] | constructor].
+    - intros z t. split; [|exact I]. intros d H. cbn [vok] in H. split; [apply scalar_ev; [apply S_time; exact H | reflexivity] | constructor].
     - intros z t. split; [|exact I]. intros d H. split; [apply (L_url d z t H) | constructor].
     - intros z x. split; [|exact I]. intros d _. split; [apply scalar_ev; [apply S_bigint | reflexivity] | constructor].
     - intros z x. split; [|exact I]. intros d _. split; [apply scalar_ev; [apply S_bigfloat | reflexivity] | constructor].
